@@ -1119,6 +1119,16 @@ func c08ErrorClassification(c *Ctx, p *Prog) {
 				}
 			}
 		}
-		c.Check("C08.E", "ListPendingRequests:returns-parse-result", p, f.Pos(), okr, "the error of parseRequestIDs is returned to the polling loop", "ListPendingRequests no longer returns the error of parseRequestIDs")
+		// … and nothing on the way can turn it into nil: no returned error has a nil constant among
+		// its possible values (a pass-through wrapper with `if h == nil { return nil }` would)
+		nilErr := ""
+		for _, r := range Returns(f) {
+			for _, x := range Roots(ReturnValue(r, 1)) {
+				if IsNilConst(x) {
+					nilErr = p.Pos(r.Pos())
+				}
+			}
+		}
+		c.Check("C08.E", "ListPendingRequests:returns-parse-result", p, f.Pos(), okr && nilErr == "", "the error of parseRequestIDs is returned to the polling loop as it is", "ListPendingRequests no longer returns the error of parseRequestIDs unchanged (a nil error can be returned at "+nilErr+" although the call failed): a failing proxy is polled again without back-off")
 	}
 }
